@@ -433,6 +433,9 @@ func checkC04(c *Ctx, r *Report) {
 	r.Undecidedcl = []string{"delivered + discarded = submitted as a count over real schedules (follows from per-item exactly-once plus channel semantics, which are trusted)", "producers that race with Stop"}
 	r.Assumptions = []string{"Go channels neither lose nor duplicate items", "atomic.AddInt64 is atomic"}
 	ro := c.roles(r)
+	if c.checkAsyncSemantics(r, ro, "C04.async-values") {
+		r.Decide([]string{"C04.producer:", "C04.worker:", "C04.send-types:", "C04.removals:", "C04.anchor:"}, nil, "the queueing logger evaluated under scripted schedules: conservation, order, policies, Stop")
+	}
 	a := c.asyncInfo(ro, r)
 	if a == nil {
 		return
@@ -1193,6 +1196,9 @@ func checkC06(c *Ctx, r *Report) {
 	r.Undecidedcl = []string{"per-producer order under real schedules (follows from single FIFO queue + single consumer; channel FIFO is trusted)"}
 	r.Assumptions = []string{"Go channels are FIFO"}
 	ro := c.roles(r)
+	if c.checkAsyncSemantics(r, ro, "C06.async-values") {
+		r.Decide([]string{"C06.policy:", "C06.nonblocking:", "C06.anchor:", "C06.consumer:"}, nil, "the queueing logger evaluated under scripted schedules: conservation, order, policies, Stop")
+	}
 	a := c.asyncInfo(ro, r)
 	if a == nil {
 		return
@@ -1583,11 +1589,22 @@ func checkC05(c *Ctx, r *Report) {
 	r.Undecidedcl = []string{"termination in bounded time", "Stop racing with concurrent log calls", "data readable from the file after Close (OS contract)"}
 	r.Assumptions = []string{"channel FIFO: a marker sent after item x is received after x", "(*os.File).Close releases the descriptor"}
 	ro := c.roles(r)
+	if c.checkAsyncSemantics(r, ro, "C05.async-values") {
+		r.Decide([]string{"C05.worker:", "C05.worker-exit:", "C05.stop-signal:", "C05.anchor:async-worker"}, nil, "the queueing logger evaluated under scripted schedules: conservation, order, policies, Stop")
+	}
 	fileAppenderDecisions(r, c.checkFileAppenderSemantics(r, ro, "C05.file-values"))
 	for tn, ok := range c.checkRollingLoggerSemantics(r, ro, "C05.rolling-values") {
 		if ok {
 			tn := tn
-			r.Decide([]string{"C05.owned-lifecycle:"}, func(k string) bool { return strings.HasPrefix(k, "C05.owned-lifecycle:"+tn+".") && !strings.Contains(strings.ToLower(k), "async") },
+			// the appenders only: whether the inner logger is started matters in asynchronous mode, which is not evaluated here
+			r.Decide([]string{"C05.owned-lifecycle:"}, func(k string) bool {
+				rest, ok := strings.CutPrefix(k, "C05.owned-lifecycle:"+tn+".")
+				if !ok {
+					return false
+				}
+				field, _, _ := strings.Cut(rest, "→")
+				return !strings.Contains(strings.ToLower(field), "logger")
+			},
 				tn+" evaluated in synchronous mode: Start opens the files of the appenders it creates, Stop closes them all")
 		}
 	}
